@@ -1,6 +1,54 @@
-(* C14 — cards are dealt without loss, duplication or change. *)
+(* C14 — cards are dealt from the deck without loss, duplication or change.
+   dealt s : the cards on the table in the order they left the deck — hole cards seat by seat, then
+             burn, flop (3), burn, turn, burn, river
+   reachable states: run g ops for create c deck = (g, Ok); deck is the order the hand is played with
+   (any permutation of the configured deck: Start() shuffles; the theorems need only its length) *)
 From Coq Require Import Permutation.
-From PF Require Import Base ModelGame ProofsGameBasic.
+From PF Require Import Base ModelGame ProofsGameBasic ProofsCards.
+
+(* at all times hole cards, burned cards and board are exactly the consumed top of the deck;
+   with a duplicate-free deck no card is ever dealt twice *)
+Theorem C14_dealt_is_top_of_deck :
+  forall c deck g ops,
+    create c deck = (g, Ok) -> length deck = length (c_deck c) ->
+    let s := run g ops in
+    dealt s = firstn (st_dpos (g_st s)) (m_deck (g_meta s)) /\
+    (NoDup (m_deck (g_meta s)) -> NoDup (dealt s)).
+Proof. exact dealt_is_top_of_deck. Qed.
+Print Assumptions C14_dealt_is_top_of_deck.
+
+(* every player holds exactly the configured number of hole cards from the deal on; one card is burned
+   before flop, turn and river; the board has 0, 3, 4, 5 cards by street *)
+Theorem C14_counts :
+  forall c deck g ops,
+    create c deck = (g, Ok) -> length deck = length (c_deck c) ->
+    let s := run g ops in
+    (forall i, (i < nplayers s)%nat ->
+       length (p_hole (get_p s i)) = match st_round (g_st s) with RNone => 0%nat | _ => m_hole (g_meta s) end) /\
+    length (st_burned (g_st s)) = fst (street_counts (st_round (g_st s))) /\
+    length (st_board (g_st s)) = snd (street_counts (st_round (g_st s))).
+Proof.
+  intros c deck g ops Hcr Hl s.
+  destruct (k2_cards _ (Kinv2_run ops g (Kinv2_create c deck g Hcr Hl))) as [_ B C D _ _]. auto.
+Qed.
+Print Assumptions C14_counts.
+
+(* the deck never changes while the hand is played *)
+Theorem C14_deck_never_changes : forall g ops, g_meta (run g ops) = g_meta g.
+Proof. intros g ops. apply deck_never_changes. Qed.
+Print Assumptions C14_deck_never_changes.
+
+(* the deck always suffices: dealing never runs out of cards (the guard added to Start) *)
+Theorem C14_deck_suffices :
+  forall c deck g ops,
+    create c deck = (g, Ok) -> length deck = length (c_deck c) ->
+    let s := run g ops in
+    (nplayers s * m_hole (g_meta s) + 8 <= length (m_deck (g_meta s)))%nat.
+Proof.
+  intros c deck g ops Hcr Hl s.
+  destruct (k2_cards _ (Kinv2_run ops g (Kinv2_create c deck g Hcr Hl))) as [_ _ _ _ _ F]. exact F.
+Qed.
+Print Assumptions C14_deck_suffices.
 
 (* shuffling (any sequence of swaps, which is what rand.Shuffle performs) only reorders *)
 Theorem C14_shuffle_only_reorders :
